@@ -151,44 +151,56 @@ Section SKProofs.
     - intro H. apply IH in H. destruct H as [k [ky [Hi H]]]. exists k, ky. auto.
   Qed.
 
-  Definition notary_vouched (pname : bytes) (pkeys : list (bytes * bytes)) (d : server_keys) : Prop :=
-    (exists kids kid key, kids_of pname (sk_raw d) = Some kids /\ In kid kids /\
-                          assoc_first kid pkeys = Some key /\ vj pname kid key (sk_raw d) = true)
-    /\ ck_all (check_keys (sk_server d) fetcher_check_now d) = true.
+  Definition notary_signature (pname : bytes) (pkeys : list (bytes * bytes)) (d : server_keys) : Prop :=
+    exists kids kid key, kids_of pname (sk_raw d) = Some kids /\ In kid kids /\
+                         assoc_first kid pkeys = Some key /\ vj pname kid key (sk_raw d) = true.
 
-  Lemma perspective_docs_cons pname pkeys d docs results :
-    perspective_docs M kids_of vj pname pkeys (d :: docs) results =
+  (* a document that contributes: signed by the notary, about a requested server, passes CheckKeys *)
+  Definition notary_vouched (pname : bytes) (pkeys : list (bytes * bytes)) (asked : kmap Z) (d : server_keys) : Prop :=
+    notary_signature pname pkeys d /\ server_requested asked (sk_server d) = true /\
+    ck_all (check_keys (sk_server d) fetcher_check_now d) = true.
+
+  Lemma perspective_docs_cons pname pkeys asked d docs results :
+    perspective_docs M kids_of vj pname pkeys asked (d :: docs) results =
     match kids_of pname (sk_raw d) with
     | None => None
     | Some kids =>
         match notary_signed M vj pname pkeys (sk_raw d) kids with
         | Some true =>
-            if ck_all (check_keys (sk_server d) fetcher_check_now d)
-            then perspective_docs M kids_of vj pname pkeys docs (map_server_keys d results)
+            if negb (server_requested asked (sk_server d))
+            then perspective_docs M kids_of vj pname pkeys asked docs results
+            else if ck_all (check_keys (sk_server d) fetcher_check_now d)
+            then perspective_docs M kids_of vj pname pkeys asked docs (map_server_keys d results)
             else None
         | _ => None
         end
     end.
   Proof. reflexivity. Qed.
 
-  Lemma perspective_docs_spec pname pkeys docs : forall results res,
-    perspective_docs M kids_of vj pname pkeys docs results = Some res ->
-    (forall d, In d docs -> notary_vouched pname pkeys d) /\
-    (forall k r, In (k, r) res -> In (k, r) results \/ exists d, In d docs /\ entry_from d k r).
+  Lemma perspective_docs_spec pname pkeys asked docs : forall results res,
+    perspective_docs M kids_of vj pname pkeys asked docs results = Some res ->
+    (forall d, In d docs -> notary_signature pname pkeys d) /\
+    (forall k r, In (k, r) res ->
+                 In (k, r) results \/ exists d, In d docs /\ notary_vouched pname pkeys asked d /\ entry_from d k r).
   Proof.
     induction docs as [|d docs IH]; intros results res.
     - simpl. intro H. inversion H; subst. split; [intros d []|auto].
     - rewrite perspective_docs_cons. destruct (kids_of pname (sk_raw d)) as [kids|] eqn:EK; [|discriminate].
       destruct (notary_signed M vj pname pkeys (sk_raw d) kids) as [[|]|] eqn:EN; try discriminate.
-      destruct (ck_all (check_keys (sk_server d) fetcher_check_now d)) eqn:EC; [|discriminate].
-      intro H. apply IH in H. destruct H as [H1 H2]. split.
-      + intros d' Hd'. simpl in Hd'. destruct Hd' as [<-|Hin]; [|auto]. split; [|exact EC].
-        apply notary_signed_true in EN. destruct EN as [kid [key [Hi [Ha Hv]]]].
-        exists kids, kid, key. auto.
-      + intros k r Hin. apply H2 in Hin. destruct Hin as [Hin|[d' [Hd He]]].
-        * apply map_server_keys_In in Hin. destruct Hin as [Hin|He]; [left; exact Hin|].
-          right. exists d. split; [left; reflexivity|exact He].
-        * right. exists d'. split; [right; exact Hd|exact He].
+      assert (HN : notary_signature pname pkeys d).
+      { apply notary_signed_true in EN. destruct EN as [kid [key [Hi [Ha Hv]]]]. exists kids, kid, key. auto. }
+      destruct (server_requested asked (sk_server d)) eqn:ER; cbn [negb].
+      + destruct (ck_all (check_keys (sk_server d) fetcher_check_now d)) eqn:EC; [|discriminate].
+        intro H. apply IH in H. destruct H as [H1 H2]. split.
+        * intros d' Hd'. simpl in Hd'. destruct Hd' as [<-|Hin]; [exact HN|auto].
+        * intros k r Hin. apply H2 in Hin. destruct Hin as [Hin|[d' [Hd [Hv He]]]].
+          -- apply map_server_keys_In in Hin. destruct Hin as [Hin|He]; [left; exact Hin|].
+             right. exists d. split; [left; reflexivity|]. split; [|exact He]. split; [exact HN|]. split; assumption.
+          -- right. exists d'. split; [right; exact Hd|]. split; assumption.
+      + intro H. apply IH in H. destruct H as [H1 H2]. split.
+        * intros d' Hd'. simpl in Hd'. destruct Hd' as [<-|Hin]; [exact HN|auto].
+        * intros k r Hin. apply H2 in Hin. destruct Hin as [Hin|[d' [Hd [Hv He]]]]; [left; exact Hin|].
+          right. exists d'. split; [right; exact Hd|]. split; assumption.
   Qed.
 
   Section Client.
@@ -198,13 +210,25 @@ Section SKProofs.
     Lemma perspective_fetch_spec pname pkeys asked res :
       perspective_fetch M kids_of vj lookup_keys pname pkeys asked = Some res ->
       exists docs, lookup_keys pname asked = Some docs /\
-        (forall d, In d docs -> notary_vouched pname pkeys d) /\
-        (forall k r, In (k, r) res -> exists d, In d docs /\ entry_from d k r).
+        (forall d, In d docs -> notary_signature pname pkeys d) /\
+        (forall k r, In (k, r) res ->
+                     exists d, In d docs /\ notary_vouched pname pkeys asked d /\ entry_from d k r).
     Proof.
       unfold perspective_fetch. destruct (lookup_keys pname asked) as [docs|]; [|discriminate].
       intro H. apply perspective_docs_spec in H. destruct H as [H1 H2].
       exists docs. split; [reflexivity|]. split; [exact H1|].
       intros k r Hin. apply H2 in Hin. destruct Hin as [[]|H]; exact H.
+    Qed.
+
+    (* every key of a perspective answer is for a server of the request map *)
+    Lemma perspective_fetch_requested pname pkeys asked res k r :
+      perspective_fetch M kids_of vj lookup_keys pname pkeys asked = Some res -> In (k, r) res ->
+      exists kid t, In ((fst k, kid), t) asked.
+    Proof.
+      intros H Hin. apply perspective_fetch_spec in H. destruct H as [docs [_ [_ H]]].
+      apply H in Hin. destruct Hin as [d [_ [[_ [HR _]] [E _]]]].
+      unfold server_requested in HR. apply existsb_exists in HR. destruct HR as [[[s kid] t] [Hin E2]].
+      simpl in E2. apply bytes_eqb_eq in E2. exists kid, t. rewrite E, <- E2. exact Hin.
     Qed.
 
     (* ---------- DirectKeyFetcher ---------- *)
